@@ -95,6 +95,14 @@ def cli_case(case):
             rf = root / f"res-{uuid.uuid4().hex}.json"
             rf.write_text(json.dumps(it["results"]))
             args = ["--codemod-include", it["codemod"], it["flag"], str(rf)]; ids = [it["codemod"]]
+        elif kind == "two-runs":
+            # an earlier run in the same interpreter met a file it could not process; this run (another project) must not inherit anything
+            cms = rng.sample(["pixee:python/numpy-nan-equality", "pixee:python/fix-assert-tuple", "pixee:python/use-walrus-if"], 2)
+            first = root / "first"
+            e2e.write_project(first, {"m.py": "def (:\n", "n.py": rng.choice(seeds[cms[0]])})
+            e2e.run(first, ["--codemod-include", ",".join(cms)])
+            e2e.write_project(proj, {"m.py": rng.choice(seeds[cms[0]]), "n.py": rng.choice(seeds[cms[1]])})
+            args = ["--codemod-include", ",".join(cms)]; ids = cms
         before = e2e.read_tree(proj)
         r = e2e.run(proj, args)
         after = e2e.read_tree(proj)
@@ -115,6 +123,7 @@ def search(ctx):
     cases = [{"kind": "zero-codemods", "seed": 0}, {"kind": "zero-files", "seed": 0}]
     cases += [{"kind": "mixed", "seed": rng.randint(0, 10**9), "pool": POOL} for _ in range(ctx.pick(12, 80))]
     cases += [{"kind": "sast", "seed": rng.randint(0, 10**9)} for _ in range(ctx.pick(8, 40))]
+    cases += [{"kind": "two-runs", "seed": rng.randint(0, 10**9)} for _ in range(ctx.pick(2, 8))]
     for c, r in zip(cases, impl.pool_map(cli_case, cases)):
         if r[0] != "ok":
             ctx.broke("c15 cli harness", r[1]); continue
@@ -123,5 +132,6 @@ def search(ctx):
         if r["rc"] != ["exit", 0]:
             ctx.fail({"kind": "cli-crash", "case": c["kind"]}, f"CLI failed {r['rc']} ({r['args']})", {"case": {k: v for k, v in c.items() if k != 'pool'}})
         elif r["errs"]:
-            ctx.fail({"kind": "report-invalid", "where": "cli", "rule": r["errs"][0].split(":")[-1].strip()[:40]}, "; ".join(r["errs"][:3]) + f" ({r['args']})",
+            ctx.fail({"kind": "report-invalid", "where": "cli", "rule": r["errs"][0].split(":")[-1].strip()[:40], "codemod": ":".join(r["errs"][0].split(":")[:2])},
+                     "; ".join(r["errs"][:3]) + f" ({r['args']})",
                      {"case": {k: v for k, v in c.items() if k != 'pool'}, "errors": r["errs"]})
